@@ -452,6 +452,10 @@ def main(tier):
     run.extra_cov['definitions_shadowed_by_dispatch_spec'] = [f'{x.pgn}:{x.id}' for x in db().defs if not db().selectable(x)]
     for ch in chunks(defs, 48):
         run.add(DecoderTask(ch))
+    # a payload handed to the PGN's public decode function reaches the definition it belongs to (the generated dispatchers)
+    from props.C08 import DispatcherTask
+    for pgn, g in db().multi_groups():
+        run.add(DispatcherTask(pgn, g, prop='C01'))
     from props import C01_extra
     C01_extra.add(run, tier)
     run.trust('pyvc encoding of Python semantics (ints, dataclass construction, dict.get, list.append); cross-checked by ./check selftest',
